@@ -22,14 +22,21 @@ Forms == {"let", "lettup", "var", "vartup", "arrelem", "field", "arrfield", "fie
           "for-count", "for-arr", "param", "lamparam", "match-some", "match-bare",
           "cap-var", "cap-var-wo", "cap-let", "cap-param",
           \* the initializer itself declares bindings (block / if-else / match arm / lambda body with a nested let or var)
-          "var-blk", "var-if", "var-match", "var-after-lam", "let-blk", "let-if"}
+          "var-blk", "var-if", "var-match", "var-after-lam", "let-blk", "let-if",
+          \* the target's static type is a type parameter (the assignment stands in a generic function that is called at
+          \* int and at float); by C22's principle it behaves like the function written by hand for that type
+          "gen-var", "gen-elem", "gen-param",
+          \* the right-hand side never yields a value (a call of panic): the program is accepted and stops there
+          "rhs-never",
+          \* the right-hand side has type void but an effect of its own: it still runs
+          "rhs-void"}
 
 Rule(form) ==
   CASE form \in {"let", "lettup", "let-blk", "let-if"} -> "diag"                  \* immutable binding
     [] form \in {"cap-var", "cap-var-wo", "cap-let", "cap-param"} -> "diag"      \* variable captured by a lambda
     [] form \in {"var", "vartup", "arrelem", "field", "arrfield", "fieldarr", "var-blk", "var-if", "var-match",
-                 "var-after-lam"} -> "effect"
-    [] form \in {"for-count", "for-arr", "param", "lamparam", "match-some", "match-bare"} -> "either"
+                 "var-after-lam", "gen-var", "gen-elem", "rhs-never", "rhs-void"} -> "effect"
+    [] form \in {"for-count", "for-arr", "param", "lamparam", "match-some", "match-bare", "gen-param"} -> "either"
 
 \* ---------------------------------------------------------------- values
 V0(ty) == IF ty = "int" THEN I(7) ELSE F(15, 1)          \* 7 / 7.5: the value of the binding
@@ -57,6 +64,23 @@ Body(c) ==
   LET ty == c.ty  x == V("x") IN
   CASE c.form = "let"     -> [types |-> <<>>, fns |-> <<>>, ss |-> <<Let("x", V0(ty))>> \o Asg(c, x) \o <<PrintS(x)>>]
     [] c.form = "var"     -> [types |-> <<>>, fns |-> <<>>, ss |-> <<Var("x", V0(ty))>> \o Asg(c, x) \o <<PrintS(x)>>]
+    [] c.form = "rhs-void" ->
+         [types |-> <<>>,
+          fns |-> <<[n |-> "eff", ps |-> <<>>, ret |-> "", body |-> <<PrintS(S("side"))>>]>>,
+          ss |-> <<Var("u", [k |-> "nil"]), Assign(V("u"), "=", Call("eff", <<>>)), PrintS(S("after")), Var("x", V0(ty))>> \o Asg(c, x) \o <<PrintS(x)>>]
+    [] c.form = "rhs-never" ->
+         [types |-> <<>>, fns |-> <<>>,
+          ss |-> <<Var("x", V0(ty)), PrintS(S("before")), Assign(x, c.op, [k |-> "panic", e |-> S("boom")]), PrintS(x)>>]
+    [] c.form \in {"gen-var", "gen-elem", "gen-param"} ->
+         \* fn g(a: T Num, b: T) -> T { <target initialised from a>; <target> op= b; <target> }   called as g(7, 3) / g(7.5, 2.0)
+         LET b == V("b")
+             asg(t) == <<Assign(t, c.op, b)>> \o (IF c.op2 = "none" THEN <<>> ELSE <<Assign(t, c.op2, b)>>)
+             body == CASE c.form = "gen-var" -> <<Var("x", V("a"))>> \o asg(x) \o <<ExprS(x)>>
+                       [] c.form = "gen-elem" -> <<Let("xs", Arr(<<V("a"), V("a")>>))>> \o asg(Idx(V("xs"), I(0))) \o <<ExprS(Idx(V("xs"), I(0)))>>
+                       [] c.form = "gen-param" -> asg(V("a")) \o <<ExprS(V("a"))>>
+         IN [types |-> <<>>,
+             fns |-> <<[n |-> "g", ps |-> <<[n |-> "a", ty |-> "T Num", d |-> NoD], [n |-> "b", ty |-> "T", d |-> NoD]>>, ret |-> "T", body |-> body]>>,
+             ss |-> <<PrintS(Call("g", <<V0(ty), Rhs(ty, c.zero)>>))>>]
     [] c.form \in {"var-blk", "let-blk"} ->      \* the initializer is a block that declares a binding of the other kind
          LET inner == IF c.form = "var-blk" THEN Let("b", V0(ty)) ELSE Var("b", V0(ty))
              init == Blk(<<inner, ExprS(V("b"))>>) IN
@@ -130,6 +154,8 @@ ProgOf(c) ==
 
 \* ---------------------------------------------------------------- the space
 ShapeOK(c) ==
+  /\ (c.form \in {"gen-var", "gen-elem", "gen-param"} => c.op # "%=" /\ c.op2 # "%=" /\ c.op # "=" )
+  /\ (c.form = "rhs-never" => c.op2 = "none" /\ ~c.zero)
   /\ (c.form = "for-count" => c.ty = "int")
   /\ (c.zero => c.ty = "int" /\ c.op \in {"/=", "%="} /\ c.op2 = "none")
 Shapes(withPairs) ==
